@@ -142,3 +142,25 @@ Definition rules_draw (strict : bool) (drop : bool) (rate : Z) : option unit :=
 Definition queue_size_accepted (validated : bool) (size : Z) : bool := if validated then 0 <=? size else true.
 Definition worker_queue (size workers : Z) : option Z :=
   let per := Z.quot (size + workers - 1) workers in if per <? 0 then None else Some per.
+
+(* sample/rules.go extractValueFromSpan: which *Span the local variable holds. Per field: span = original; a
+   `root.`-prefixed field uses trace.RootSpan if there is one, otherwise the field is skipped. [skip_first]: the
+   source tests `trace.RootSpan != nil` BEFORE assigning (else: continue); the flattened variant assigns
+   span = trace.RootSpan (nil for a rootless trace) and then continues. After the loop the nested-field fallback
+   (CheckNestedFields) reads span.Data. A field is (root-prefixed?, present in the span it is looked up in?). *)
+Inductive spanvar := SOrig | SRoot | SNil.
+Fixpoint xv_loop (skip_first has_root : bool) (fields : list (bool * bool)) (cur : spanvar) : spanvar * bool :=
+  match fields with
+  | [] => (cur, false)
+  | (rp, present) :: r =>
+      if rp then
+        if has_root then (if present then (SRoot, true) else xv_loop skip_first has_root r SRoot)
+        else xv_loop skip_first has_root r (if skip_first then SOrig else SNil)
+      else if present then (SOrig, true) else xv_loop skip_first has_root r SOrig
+  end.
+(* Some found / None = nil dereference *)
+Definition extract_value (skip_first has_root nested : bool) (fields : list (bool * bool)) : option bool :=
+  let '(cur, found) := xv_loop skip_first has_root fields SOrig in
+  if found then Some true
+  else if nested then match cur with SNil => None | _ => Some false end
+  else Some false.
